@@ -185,7 +185,7 @@ func writeEvidence(path, prop string, rep *Report, rules []*Rule, audit *AuditRe
 	sort.Strings(pkgs)
 	cov := map[string]any{
 		"explanation": "Static analysis of /repo's current source (typed AST, go/cfg, go/ssa); no go-cty code is executed. " +
-			"Decides only the structural clauses listed under rules; each is a necessary condition of the property, not the behaviour itself. " + propNotDecided[prop],
+			"Decides only the structural clauses listed under rules; each is a necessary condition of the property, not the behaviour itself. The rules examine every package; a violation raises this property's alarm when the construct lies in one of the property's anchor files (obligations elsewhere are listed with status info and alarm under the properties that anchor their file). " + propNotDecided[prop],
 		"obligations":         st.total,
 		"discharged":          st.discharged + st.known,
 		"assumed":             st.assumed,
@@ -232,3 +232,28 @@ func writeEvidence(path, prop string, rep *Report, rules []*Rule, audit *AuditRe
 
 // propNotDecided is appended to the explanation: what the check does not decide.
 var propNotDecided = map[string]string{}
+
+// loadNotDecided fills propNotDecided from the level_note of each check in MANIFEST.json (the
+// "Not decided: …" sentence is part of the claim and is repeated in the evidence).
+func loadNotDecided(verif string) {
+	b, err := os.ReadFile(filepath.Join(verif, "MANIFEST.json"))
+	if err != nil {
+		return
+	}
+	var m struct {
+		Checks []struct {
+			PropertyID string `json:"property_id"`
+			LevelNote  string `json:"level_note"`
+		} `json:"checks"`
+	}
+	if json.Unmarshal(b, &m) != nil {
+		return
+	}
+	for _, c := range m.Checks {
+		note := c.LevelNote
+		if i := strings.Index(note, "Trusted:"); i > 0 {
+			note = note[:i]
+		}
+		propNotDecided[c.PropertyID] = strings.TrimSpace(note)
+	}
+}
